@@ -66,7 +66,7 @@ PART = {
         "each direction's submitted stream is shorter than 2^31 - 2^17 bytes (as in C01_safety)",
         "the channel of instructions is modelled as an unbounded FIFO queue: the bounded mpsc channel (8 slots) with "
         "one spawned sender task per instruction delivers in hand-over order on the current-thread runtime; on the "
-        "multi-thread runtime the spawned tasks race, which is the recorded finding c02-write-reorder-multithread "
+        "multi-thread runtime the spawned tasks raced (former finding c02-write-reorder-multithread, repaired by 3d926256: the channel is unbounded and written synchronously now, exactly the model's FIFO) "
         "(application writes reach the task in another order) - the oracle reports exactly that class as known and "
         "fails on any other reordering; C01s_session_safety is about the stream in the order the writes enter the "
         "channel",
